@@ -279,7 +279,7 @@ def r7_candidates_are_legal(ctx):
     filter and the filter simulates each candidate (= C01.R1 / R2)"""
     from . import c01
     import_rules(ctx, 'C07.R7-candidates-are-legal', [c01.r1_filter_dominance, c01.r2_filter_shape, c01.r3_castle_guards, c01.r4_pawn_geometry,
-                                                      c01.r4b_pawn_captures, c01.r5_attack_map, c01.r7_promotions, c01.r8_captures],
+                                                      c01.r4b_pawn_captures, c01.r5_attack_map, c01.r7_promotions, c01.r8_captures, c01.r9_position_invariants],
                  'a candidate that skipped the apply / attack-map / undo simulation (e.g. an en-passant capture judged by the squares of the '
                  'capturing pawn alone) can be returned by the search although it leaves the own king in check', floor=6)
 
